@@ -59,6 +59,7 @@ def check(run):
     p = run.prog
     from . import rexpy_eval
     run.attempt(rexpy_eval.run_rule, run, p, 'C14')
+    run.attempt(rexpy_eval.size_rule, run, p)
     funcs = [f for f in p.funcs.values() if f.mod.name == MOD]
     regions = {}
     run.rule('C14-RESTORE', 'every PRNGState(seed) is immediately followed by a try whose finally calls .restore(): no exit between '
